@@ -12,7 +12,8 @@ Definition xc_of (enc : N) : xcoder :=
   if enc =? 0 then xc_utf8 else if enc =? 1 then xc_utf16 false else if enc =? 2 then xc_utf16 true
   else if enc =? 4 then xc_ucs4 false else if enc =? 5 then xc_ucs4 true else xc_latin1.
 Definition step_of (enc : N) : list N -> dres :=
-  if enc =? 0 then step_utf8 else if enc =? 1 then step_utf16 false else if enc =? 2 then step_utf16 true else step_latin1.
+  if enc =? 0 then step_utf8 else if enc =? 1 then step_utf16 false else if enc =? 2 then step_utf16 true
+  else if enc =? 4 then step_ucs4 false else if enc =? 5 then step_ucs4 true else step_latin1.
 
 (** configuration with explicit sizes (small sizes are used by the model-only sweeps and the Examples) *)
 Definition mk_cfg (enc : N) (v11 : bool) (cb rb lw : nat) (fill safe : bool) : cfg :=
